@@ -84,41 +84,7 @@ theorem extract_docText_true (p : Param) (edd : Bool) (hp : GoodEntry p) :
     | none => exact absurd hd hp.docSome
     | some d =>
       have g := hp.doc d hd
-      exact extract_plain d Option.none true g.noParen g.noAnn
-
-theorem lowerC_paren : lowerC '(' = '(' := by decide
-
-theorem docText_noParenHead (p : Param) (edd : Bool) (hp : GoodEntry p) : startsWith (docText p edd) ['('] = false := by
-  unfold docText
-  cases hd : p.doc with
-  | none => exact absurd hd hp.docSome
-  | some d =>
-    have g := hp.doc d hd
-    have hd0 : startsWith d ['('] = false := by
-      cases d with
-      | nil => rfl
-      | cons c cs =>
-        cases hb : ('(' == c) with
-        | false => simp [startsWith, List.isPrefixOf, hb]
-        | true =>
-          have : c = '(' := (beq_iff_eq.mp hb).symm
-          subst this
-          exact absurd (by simp [lower, lowerC_paren]) g.noParen
-    simp only []
-    cases (if edd then p.default else Option.none) with
-    | none => exact hd0
-    | some v =>
-      simp only []
-      unfold startsWith at hd0 ⊢
-      rcases baseOf_cases d with e | e
-      · rw [e, List.append_assoc]
-        have : defaultsTo ++ renderVal v = ' ' :: (defaultsTo.drop 1 ++ renderVal v) := rfl
-        rw [this, isPrefixOf_append_of_notin _ d _ ' ' (by decide)]
-        exact hd0
-      · rw [e, List.append_assoc, List.append_assoc]
-        have : ['.'] ++ (defaultsTo ++ renderVal v) = '.' :: (defaultsTo ++ renderVal v) := rfl
-        rw [this, isPrefixOf_append_of_notin _ d _ '.' (by decide)]
-        exact hd0
+      exact extract_plain d Option.none true (hasParenAnnounce_plain d g.noParenAnn) g.noAnn
 
 /-- the `:param` line on a fresh key -/
 theorem fDoc_good (name : Str) (p : Param) (edd : Bool) (hn : GoodName name) (hp : GoodEntry p) :
@@ -130,7 +96,7 @@ theorem fDoc_good (name : Str) (p : Param) (edd : Bool) (hn : GoodName name) (hp
   rw [e, h1]
   simp only []
   rw [setNameAndType_good name Option.none (docText p edd) (dfltOf p edd) hn (fun t ht => by cases ht) (docText_good p edd hp)
-    (docText_noParenHead p edd hp) (extract_docText_true p edd hp) (dfltOf_good p edd hp)]
+    (extract_docText_true p edd hp) (dfltOf_good p edd hp)]
   rfl
 
 /-- the `:type` line on the entry the `:param` line made -/
@@ -146,7 +112,7 @@ theorem fTyp_good (name : Str) (p : Param) (t : Str) (edd : Bool) (hn : GoodName
     (extract_docText' p edd (some t) hp hc) (dfltOf_good p edd hp) (Or.inr rfl)
   simp only [h1]
   rw [setNameAndType_good name (some t) (docText p edd) (dfltOf p edd) hn (fun t' ht' => by cases ht'; exact gt.noOptSuffix)
-    (docText_good p edd hp) (docText_noParenHead p edd hp) (extract_docText_true p edd hp) (dfltOf_good p edd hp)]
+    (docText_good p edd hp) (extract_docText_true p edd hp) (dfltOf_good p edd hp)]
   rfl
 
 theorem compat_tyName (v : Default) : Compat (some (tyName v)) v := by
